@@ -62,6 +62,16 @@ def F2():
     return res != ["False", "False"], f"equals(quad-only, quad+tri)={res[0]}, equals(quad+tri, quad-only)={res[1]}"
 
 
+def F3():
+    """C06/C08: merge(m1, m2) where every point of m2 already exists in m1 drops m2's cells"""
+    from fieldcompare.mesh import Mesh, MeshFields, CellTypes, merge
+    q = Mesh(np.array([[0., 0.], [1., 0.], [1., 1.], [0., 1.]]), [(CellTypes.quad, [[0, 1, 2, 3]])])
+    t = Mesh(np.array([[0., 0.], [1., 0.], [1., 1.]]), [(CellTypes.triangle, [[0, 1, 2]])])
+    m = merge(MeshFields(q, {}, {"c": [[1.0]]}), MeshFields(t, {}, {"c": [[2.0]]}))
+    ncells = sum(len(m.domain.connectivity(ct)) for ct in m.domain.cell_types)
+    return ncells != 2, f"merge(quad, triangle on three of its corners): {ncells} cell(s) in the result, expected 2"
+
+
 def F4():
     """C06: structured merger loses the numeric type of integer fields"""
     from fieldcompare.mesh import StructuredFieldMerger
